@@ -976,8 +976,17 @@ fn sync_allocation_status(
                     None
                 }
                 AllocationState::Running {
-                    connected_workers, ..
+                    connected_workers,
+                    disconnected_workers,
+                    ..
                 } => {
+                    if disconnected_workers.contains(worker_id) {
+                        // A late or repeated notification, the worker is already gone
+                        log::warn!(
+                            "Worker {worker_id} of allocation {allocation_id} was already lost, ignoring its connection"
+                        );
+                        return;
+                    }
                     if allocation.target_worker_count == connected_workers.len() as u64 {
                         log::warn!(
                             "Allocation {allocation_id} already has the expected number of workers, worker {worker_id} is not expected"
